@@ -223,6 +223,14 @@ def check(ctx):
     with ctx.shared({"C03.R6": ("C07.R8", "a failed exchange is seen as failed all the way up (no status dropped, no failure code mistaken for success), so "
                                 "it cannot refresh the expiry timestamp")}):
         C03.r6(ctx, retsets)
+    with ctx.shared({"C03.R2": ("C07.R9", "a response that could not be applied (and was rolled back or purged) is reported as failed by the receive "
+                                "function: success is returned on exactly the paths that applied every buffered PDU, so a rejected "
+                                "response cannot refresh the expiry timestamp either")}):
+        C03.r2_r3_r4(ctx, retsets)
+    from specs import C05
+    with ctx.shared({"C05.R5": ("C07.R10", "the purge on reconnect is followed by a Reset Query in the same round: the choice between Serial and "
+                                "Reset Query is made on request_session_id as it is after the purge check")}):
+        C05.r5(ctx, retsets)
     ctx.not_decided("real time: the check is about which comparison is made and what follows it, not about clocks")
 
 
